@@ -94,18 +94,24 @@ def run_subst(form, expr, sigma):
             d[build(V(key))] = val
         else:
             d[build(key)] = val
-    if form == "dict":
-        return substitute(expr, d)
-    if form == "kw":
-        # keyword form only exists for name keys; the others go into the dict
-        rest = {k: v for k, v in d.items() if not (isinstance(k, str))}
-        return substitute(expr, rest, **kw)
-    if form == "plain":
-        return SubstitutionMapper(make_subst_func(d))(expr)
-    if form == "cached":
-        return CachedSubstitutionMapper(make_subst_func(d))(expr)
-    if form == "plain-entry":
-        return substitute(expr, d, mapper_cls=SubstitutionMapper)
+    # the inputs are built; from here on the library works on well-formed modern nodes and has no
+    # reason to emit a DeprecationWarning of its own -- a caller running with -W error would get
+    # an exception instead of a result
+    import warnings
+    with warnings.catch_warnings():
+        warnings.simplefilter("error", DeprecationWarning)
+        if form == "dict":
+            return substitute(expr, d)
+        if form == "kw":
+            # keyword form only exists for name keys; the others go into the dict
+            rest = {k: v for k, v in d.items() if not (isinstance(k, str))}
+            return substitute(expr, rest, **kw)
+        if form == "plain":
+            return SubstitutionMapper(make_subst_func(d))(expr)
+        if form == "cached":
+            return CachedSubstitutionMapper(make_subst_func(d))(expr)
+        if form == "plain-entry":
+            return substitute(expr, d, mapper_cls=SubstitutionMapper)
     raise ValueError(form)
 
 
@@ -276,6 +282,9 @@ class C08(Check):
         "independent simultaneous substitution on specs (outermost match first)",
         "one map never gives the same target twice (as name and as Variable)",
         "lists/arrays are not substituted into (memoizing mapper needs hashable input)",
+        "during the substitution itself DeprecationWarnings are errors (as under python -W error): "
+        "the inputs are modern, hashable nodes, so any such warning comes from the library's own "
+        "rebuilding of nodes",
     ]
     chunk = 4
 
